@@ -907,6 +907,8 @@ inline void reset_library() {
 
 // execute one scenario under the schedule given by `bytes` (or by Scheduler::script when use_script is set) and judge it
 inline vf::CaseResult run_scenario(const Profile& pf, const Scenario& sc, const std::vector<std::uint8_t>& bytes, bool record, vf::Stats& st) {
+    vf::heartbeat(); // enumeration stages execute thousands of schedules per case: the watchdog times each execution
+
     vf::CaseResult res;
     auto& S = sched::Scheduler::get();
     std::string trace_note;
